@@ -231,3 +231,48 @@ Proof.
         apply IHd in Gb; [|rewrite Hnm; auto].
         eapply grown_fun2; eauto.
 Qed.
+
+(* ------------------------------------------------------------------ progress: under the uniform contract
+   (every draw is a fraction n/d with n < d) and with enough draws, grow returns a tree *)
+Definition frac_ok (u : frac) : Prop := fst u < snd u.
+Fixpoint needs (d : nat) : nat := match d with 0 => 1 | S d' => S (2 * needs d') end.
+
+Lemma scale_lt : forall h u, 0 < h -> frac_ok u -> scale 0 h u < h.
+Proof.
+  unfold scale, frac_ok. intros h [n d] Hh Hu. simpl in *. rewrite Nat.sub_0_r.
+  apply Nat.div_lt_upper_bound; nia.
+Qed.
+
+Theorem grow_total : forall E, arity_ok E -> 0 < g_nt E -> forall d ds st,
+  Forall frac_ok ds -> needs d <= length ds ->
+  exists r st' ds' pre, grow E d ds st = Ok (r, st', ds') /\ ds = pre ++ ds' /\ length pre <= needs d.
+Proof.
+  intros E HA Hnt. induction d; intros ds st Hok Hlen.
+  - destruct ds as [|u ds1]; simpl in Hlen; [lia|]. inversion Hok; subst. cbn [grow].
+    pose proof (scale_lt (g_nt E) u Hnt H1) as Hk. apply Nat.ltb_lt in Hk. rewrite Hk. cbn [alloc].
+    do 3 eexists. exists [u]. split; [reflexivity|]. split; [reflexivity|simpl; lia].
+  - destruct ds as [|u ds1]; cbn [needs] in Hlen; simpl in Hlen; [lia|]. inversion Hok; subst. cbn [grow].
+    assert (Hv : scale 0 (length (g_funs E) + g_nt E) u < length (g_funs E) + g_nt E) by (apply scale_lt; auto; lia).
+    destruct (length (g_funs E) <=? scale 0 (length (g_funs E) + g_nt E) u) eqn:Ev.
+    + apply Nat.leb_le in Ev.
+      assert (Hk : scale 0 (length (g_funs E) + g_nt E) u - length (g_funs E) < g_nt E) by lia.
+      apply Nat.ltb_lt in Hk. rewrite Hk. cbn [alloc].
+      do 3 eexists. exists [u]. split; [reflexivity|]. split; [reflexivity|simpl; lia].
+    + apply Nat.leb_gt in Ev.
+      destruct (nth_error (g_funs E) (scale 0 (length (g_funs E) + g_nt E) u)) as [op|] eqn:Eop;
+        [|apply nth_error_None in Eop; lia].
+      pose proof (nth_error_In _ _ Eop) as Hin.
+      destruct (IHd ds1 (snd (alloc st (new_cell (Fun op) None))) H2 ltac:(lia)) as (ra & sta & dsa & prea & Ga & Ea & La).
+      assert (Hoka : Forall frac_ok dsa) by (rewrite Ea in H2; apply Forall_app in H2; tauto).
+      assert (Hlena : needs d <= length dsa).
+      { assert (length ds1 = length prea + length dsa) by (rewrite Ea, app_length; reflexivity). lia. }
+      destruct (HA op Hin) as [H1' | H2'].
+      * rewrite H1'. cbn [alloc grow_args]. cbn [alloc snd] in Ga. rewrite Ga.
+        do 3 eexists. exists (u :: prea). split; [reflexivity|]. split; [rewrite Ea; reflexivity|simpl; lia].
+      * rewrite H2'. cbn [alloc grow_args]. cbn [alloc snd] in Ga. rewrite Ga.
+        match goal with |- context [grow E d dsa ?s] =>
+          destruct (IHd dsa s Hoka Hlena) as (rb & stb & dsb & preb & Gb & Eb & Lb) end.
+        rewrite Gb.
+        do 3 eexists. exists (u :: prea ++ preb). split; [reflexivity|].
+        split; [rewrite Ea, Eb; simpl; rewrite <- app_assoc; reflexivity|simpl; rewrite app_length; lia].
+Qed.
